@@ -415,6 +415,13 @@ fn new(grm: &YaccGrammar, sg: &StateGraph) -> (r: Result<Tables, StateTableError
                 assert((ref_stidx.0 as nat) < ns);
     //@end
     //@rule n=* `pidx\.cmp\(&r_pidx\)` => `pidx_cmp(pidx, r_pidx)`
+    //@rule n=1 `^(\s*)match pidx_cmp\(pidx, r_pidx\) \{$` => `\1let ghost rr_before_ = reduce_reduce@;\n\1match pidx_cmp(pidx, r_pidx) {`
+    //@after n=1 `match pidx_cmp\(pidx, r_pidx\) \{` =>>
+                            proof { lemma_codec2(Action::Reduce(pidx)); lemma_codec2(Action::Reduce(r_pidx)); }
+                            assert(dec(actions@[off as int]) == Action::Reduce(if pidx.0 <= r_pidx.0 { pidx } else { r_pidx })); // OBL: C03.reduce_reduce_keeps_the_production_declared_earlier
+                            assert(pidx.0 == r_pidx.0 ==> reduce_reduce@ == rr_before_); // OBL: C03.reduce_reduce_not_reported_for_the_same_production
+                            assert(pidx.0 != r_pidx.0 ==> reduce_reduce@ == rr_before_.push((TIdx(tidx as $T), if pidx.0 < r_pidx.0 { pidx } else { r_pidx }, if pidx.0 < r_pidx.0 { r_pidx } else { pidx }, stidx))); // OBL: C03.reduce_reduce_conflict_reported_once_with_both_productions
+    //@end
     //@rule n=1 `if dot < grm\.prod_len\(pidx\) \{` => `if dot.0 < grm.prod_len(pidx).0 {`
     //@rule n=1 `\{ let assert_cond_ = gotos\[off\] == 0; assert\(assert_cond_\); \}` => `{ let assert_cond_ = gotos[off] == 0; assert(assert_cond_); } // OBL: C16.goto_cell_written_once`
     //@rule n=* `^(\s*)actions\[off\] = StateTable::encode\((.*)\);$` => `\1actions[off] = StateTable::encode(\2); proof { lemma_codec2(\2); }`
